@@ -19,6 +19,8 @@ func main() {
 		cmdFunc(os.Args[2:])
 	case "check":
 		cmdCheck(os.Args[2:])
+	case "ords":
+		cmdOrds(os.Args[2:])
 	default:
 		fmt.Fprintln(os.Stderr, "unknown command", os.Args[1])
 		os.Exit(2)
@@ -37,10 +39,16 @@ func cmdFunc(args []string) {
 	work := fs.String("work", "", "work dir for VC files")
 	verbose := fs.Bool("v", false, "print every obligation")
 	dump := fs.String("dump", "", "dump the VC of obligations whose name contains this string")
+	nomerge := fs.Bool("nomerge", false, "do not merge states at if-joins")
 	fs.Parse(args)
 	V := newVerifier(*repo, *stdlib)
+	V.noMerge = *nomerge
 	t0 := time.Now()
-	if err := V.load([]string{"./" + *pkg}); err != nil {
+	loadPat := "./" + *pkg
+	if *pkg == "stdlib" {
+		loadPat = "./typez"
+	}
+	if err := V.load([]string{loadPat}); err != nil {
 		fmt.Fprintln(os.Stderr, "load:", err)
 		os.Exit(2)
 	}
@@ -128,3 +136,38 @@ func cmdFunc(args []string) {
 	}
 }
 
+
+// cmdOrds lists loop and call ordinals of a function (for writing anchors).
+func cmdOrds(args []string) {
+	fs := flag.NewFlagSet("ords", flag.ExitOnError)
+	repo := fs.String("repo", "/repo", "repository root")
+	pkg := fs.String("pkg", "", "package")
+	fn := fs.String("func", "", "function key")
+	fs.Parse(args)
+	V := newVerifier(*repo, "/verif/stdlib")
+	if err := V.load([]string{"./" + *pkg}); err != nil {
+		fmt.Println(err)
+		os.Exit(2)
+	}
+	fi := V.funcsByKey[*pkg+"."+*fn]
+	if fi == nil {
+		fmt.Println("no such function")
+		os.Exit(2)
+	}
+	fc := V.newFuncCtx(fi, &FuncContract{})
+	type ent struct {
+		line int
+		s    string
+	}
+	var es []ent
+	for st, n := range fc.loopOrd {
+		es = append(es, ent{fi.Pkg.Fset.Position(st.Pos()).Line, fmt.Sprintf("loop %d", n)})
+	}
+	for c, n := range fc.callOrd {
+		es = append(es, ent{fi.Pkg.Fset.Position(c.Pos()).Line, fmt.Sprintf("call%d %s", n, exprStr(c))})
+	}
+	sort.Slice(es, func(i, j int) bool { return es[i].line < es[j].line || es[i].line == es[j].line && es[i].s < es[j].s })
+	for _, e := range es {
+		fmt.Printf("%5d  %s\n", e.line, e.s)
+	}
+}
